@@ -666,6 +666,23 @@ def r6(ctx):
         ctx.ob(fi.qual, "genotypes-compared-as-allele-multisets", ok, fi.loc(c), "two phasings agree on a genotype when the multisets of their alleles are equal" if ok else ("genotype agreement is decided by %s: {0, 2} and {1, 1} count as the same genotype and the position enters the switch/flip comparison" % bad[0] if bad else "cannot tell what `%s` compares" % u(c)[:80]))
 
 
+def r7(ctx):
+    """A comparison of files i and j is restricted to the variants that are heterozygous in i and j -- whatever else is on the
+    command line: compare() derives its common variants from the tables it was given, unconditionally."""
+    cmpf = ctx.func("whatshap.cli.compare.compare")
+    params = util.params_of(cmpf.node)
+    defs = [(s_, v_) for s_, v_ in util.assignments_to(cmpf.node, "common_variants")]
+    cfg = ctx.cfg(cmpf)
+    if "common_variants" in params or not defs:
+        inherited = "common_variants" in params
+        ctx.ob(cmpf.qual, "common-variants-of-the-compared-files", False if inherited else None, cmpf.loc(), "compare() takes its common variants from the caller: a pairwise comparison inside a run with three or more files is restricted by a third file, so its counts depend on an unrelated input" if inherited else "common_variants is not defined in compare()")
+        return
+    ok = len(defs) == 1 and isinstance(defs[0][1], ast.Call) and u(defs[0][1].func) == "collect_common_variants" and [u(a) for a in defs[0][1].args[:2]] == params[:2]
+    if ok:
+        ok = getattr(defs[0][0], "parent", None) is cmpf.node  # a top-level statement of compare(): not under any condition
+    ctx.ob(cmpf.qual, "common-variants-of-the-compared-files", ok, cmpf.loc(defs[0][0]), "common_variants = collect_common_variants(variant_tables, sample_names) of exactly the tables being compared" if ok else "common variants are not (unconditionally) those of the tables passed to compare()")
+
+
 RULES = [
     ("C11.R1", "operand shape of per-position metrics (haplotype string vs list)", r1),
     ("C11.R2", "orientation test and branches of the longest-block agreement", r2),
@@ -673,7 +690,8 @@ RULES = [
     ("C11.R4", "only present, complete phases enter blocks", r4),
     ("C11.R5", "per-chromosome switch-error records are collected afresh for each chromosome", r5),
     ("C11.R6", "polyploid comparison: one flip per differing haplotype; genotypes as allele multisets", r6),
+    ("C11.R7", "pairwise comparison restricted to the two files' own common variants", r7),
 ]
 # instance floors: about 60% of the instances confirmed by hand on the reference tree -- a rule that suddenly matches far fewer
 # sites fails the run (exit 2); a clean-up that merges two sites into one does not
-FLOORS = {"C11.R1": 7, "C11.R2": 1, "C11.R3": 1, "C11.R4": 1, "C11.R5": 1, "C11.R6": 2}
+FLOORS = {"C11.R1": 7, "C11.R2": 1, "C11.R3": 1, "C11.R4": 1, "C11.R5": 1, "C11.R6": 2, "C11.R7": 1}
